@@ -67,6 +67,8 @@ struct Tap {
 	int cur_epoch[2] = { 0, 0 };
 	bool have_codec[2] = { false, false };
 	wt::RecCodec codec[2];
+	wt::KeyMat found_km[2];      // key material that authenticated the current epoch of each direction
+	size_t epoch_start[2] = { 0, 0 };   // index of the first record of that epoch
 	std::vector<Plain> plain[2];
 	std::string decode_error;
 
@@ -109,6 +111,8 @@ struct Tap {
 						codec[dir] = c;
 						have_codec[dir] = true;
 						cur_epoch[dir] = r.epoch;
+						found_km[dir] = cands[k];
+						epoch_start[dir] = next[dir];
 						found = true;
 					}
 				}
@@ -138,6 +142,20 @@ struct Tap {
 	{
 		if (!advance(dir) || !have_codec[dir] || cur_epoch[dir] != epoch[dir]) return false;
 		c = codec[dir];
+		return true;
+	}
+	// codec for crafting the record that would follow the first `count`
+	// records of direction `dir` (all of the current epoch must be decoded)
+	bool codec_after(int dir, size_t count, wt::RecCodec &c)
+	{
+		if (!advance(dir) || !have_codec[dir] || count < epoch_start[dir] || count > recs[dir].size()) return false;
+		if (!c.init(found_km[dir], dir == 0)) return false;
+		c.seq = count - epoch_start[dir];
+		if (wt::is_cbc(c.si->cipher) && c.version <= 0x0301 && count > epoch_start[dir]) {
+			const Bytes &prev = recs[dir][count - 1].payload;
+			size_t bs = wt::block_len(c.si->cipher);
+			if (prev.size() >= bs) c.iv.assign(prev.end() - bs, prev.end());
+		}
 		return true;
 	}
 	Bytes app_stream(int dir) const
